@@ -7,6 +7,18 @@ TEXTS = {
         "level_note": "Trusted: T-OPS alias/allocate table, A-NET (user networks return fresh tensors and do not mutate inputs), A-UMNN, supported fact on HouseholderSequence (re-checked each run).",
         "technique": "static ownership/effect abstract interpretation (interprocedural may-alias dataflow on the AST)",
     },
+    "C10": {
+        "level_text": "Exhaustive over the abstract history space: the transfer function of every life-cycle method is derived from its body on each run, environment events follow nn.Module's documented treatment of plain attributes, and the least fixpoint of reachable (training, using_cache, {None,Fresh,Stale}^3) states under all event sequences of any length is computed; a stale or unfilled read is reported with the shortest history. Structural companion rules decide field/accessor agreement, guard, sign and bias placement of the cached branch. Numeric equality of cached and uncached results is out of reach and not claimed.",
+        "design_ref": "DESIGN.md 1.7, 2.C10, A.2",
+        "level_note": "Trusted: T-NN (plain attributes are not converted, saved or loaded; Module.train/_apply/_load_from_state_dict semantics), A-API, purity of the accessors (C13). The open defect D11 (graph-attached memo) is listed in known_findings.json.",
+        "technique": "static typestate analysis: transfer functions derived from method bodies, least fixpoint over all event sequences; AST pair rules",
+    },
+    "C14": {
+        "level_text": "Exhaustive over abstract histories of {train, eval, forward, inverse, save+load}: reachable-state fixpoint with transfer functions derived from the ActNorm/BatchNorm method bodies; life-cycle predicates (init at most once, only by a training-mode forward, must-write of flag/scale/shift, flag survives reload, purity of inverse/eval) are checked on every transition. BatchNorm's statistics routing is decided by a mode-split taint analysis and the momentum recurrence by polynomial normalisation. The zero-mean/unit-variance numerics of the initialised batch are out of reach.",
+        "design_ref": "DESIGN.md 1.7, 2.C14",
+        "level_note": "Trusted: T-NN (which attribute kinds travel in a state dict), T-OPS (which operations reduce over the batch axis / detach), A-API.",
+        "technique": "static typestate fixpoint + mode-split taint dataflow + polynomial normal form of the update statement",
+    },
 }
 
 NOT_CLAIMED = {}
